@@ -1,16 +1,33 @@
 """C10 Stored btrees behave as ordered maps (db19/index/btree)
 
-Mutation testing (scratch worktree, VERIF_REPO, quick tier, seed 1) -- see bottom of file.
+Mutation testing (scratch worktree /tmp/ixs-mut, VERIF_REPO, quick tier, seed 1; "tests" = go test
+./db19/index/btree/... with the mutant):
+  caught by this check, package tests green:
+    revert-f13             upper clamp of rangeFrac removed (= the original defect F13)  VIOLATION at a Frac event
+    search-prefix-le       leafNode.search: `key <= prefix` => before all entries        VIOLATION at a State event (Lookup of the
+                           (a key equal to the node's shared prefix is not found)        key that equals the leaf prefix returns 0)
+    check-callback-prefix  Check(fn(key, off)) passes the suffix without the leaf prefix  VIOLATION at a ChkKeys event
+    builder-count-dup      Builder.Add counts a refused duplicate                        VIOLATION at a State event (Check() panics)
+  not caught:
+    droppos        pos fix-up after tree.delete in dropLeaf removed    equivalent: pos is recomputed by descendToLeaf before use
+    builder-sep    separator one byte longer than necessary            equivalent: still a valid separator
+    tryadd-size    leafBuilder.tryAdd allows 200 bytes more            only shows as 'leafNode too large (write)', which is the
+                                                                       registered known finding (node-too-large-near-max-keys)
+  killed by the package's own tests already: sep-short (separator one byte short), contains-le (key == limit stays in
+    the left leaf), count-drift (update counted), prev-end, prefix-cap (256), rightedge, limit-inherit,
+    insert-prefix-path, next-rewound-range, seek-range, range-norange, single-key-prefix, leaf-delete-2to1,
+    gte-short-bound, builder-dup-prev, inplace-update (update without path copy), frac-no-lower-clamp
 """
 
 META = {
  "engine": "tla-ordmap",
- "text": "TLC exhausts OrdMap.tla (every bulk-built tree over 4-5 keys, every valid change batch, two consecutive batches, every cursor walk with every range) for count bookkeeping, ordered duplicate-free iteration both ways, sequential batch application = declarative meaning, Next/Prev/Seek meaning; the REAL btree (Builder, MergeAndSave through real ixbufs, Lookup of the whole key universe, forward/backward iteration, ranged iterators with Seek, Check() incl. callback, old versions after path copying, RangeFrac) is driven with seeded random and boundary-biased batches over nasty keys and every call is replayed through the same operators by TLC trace validation",
+ "text": "TLC exhausts OrdMap.tla (every bulk-built tree over 4-5 keys, every valid change batch, two consecutive batches, every cursor walk with every range) for count bookkeeping, ordered duplicate-free iteration both ways, sequential batch application = declarative meaning, Next/Prev/Seek meaning, and BTreeNodes.tla (merge.go's path-copying merge with limits, splits, empty-node removal and root popping transcribed over an append-only store: every valid batch sequence over 4-6 keys, split factors 2-3, both separator extremes) for content = MergeBatch, node ordering/separator/size invariants, exact count and an untouched old version; the REAL btree (Builder incl. refused duplicates, MergeAndSave through real ixbufs, Lookup of the whole key universe, forward/backward iteration, ranged iterators with Seek, skip-scan iterators over composite keys, Check() incl. callback, old versions after path copying, header Write/Read round trip, RangeFrac) is driven with seeded random and boundary-biased batches over nasty keys and every call is replayed through the same operators by TLC trace validation",
  "note": "trusts TLC/CommunityModules Json, the driver's rank->key table (asserted strictly monotone) and offset-id table; small-scope: exhaustive part 4-5 keys, conformance part up to ~2100 keys, split factors 2..200; RangeFrac only checked for 0<=frac<=1 and finiteness (it is an estimate)",
  "technique": "TLA+ model checking (TLC) + trace validation of logged calls on the real btree",
 }
 
 import ixutil
+import vlib
 
 
 def classify(ev):
@@ -29,11 +46,26 @@ def run(ctx):
     # 1. design level
     r = ctx.tlc_mc("OrdMap.tla", "OrdMap_quick.cfg", timeout=900, coverage=True)
     if r.get("never_enabled"):
-        import vlib
         raise vlib.Infra("vacuous: actions never enabled in OrdMap_quick: %s" % r["never_enabled"])
     if ctx.thorough():
         ctx.tlc_mc("OrdMap.tla", "OrdMap_thorough.cfg", timeout=3000)
     ctx.tlc_mc("OrdMap.tla", "OrdMap_dev_count.cfg", timeout=600, expect_violation="CountOK", count=False)
+    # node level: merge.go's path / limit / split / drop-empty algorithm transcribed (BTreeNodes.tla):
+    # every valid batch sequence over 5 keys with split factor 2 (two tree levels are reached), both
+    # separator extremes; the result must be MergeBatch of OrdMapOps, nodes must satisfy Check()'s
+    # invariants, the old version must be untouched
+    r = ctx.tlc_mc("BTreeNodes.tla", "BTreeNodes_quick.cfg", timeout=900, coverage=True)
+    if r.get("never_enabled"):
+        raise vlib.Infra("vacuous: actions never enabled in BTreeNodes_quick: %s" % r["never_enabled"])
+    ctx.tlc_mc("BTreeNodes.tla", "BTreeNodes_sepmin.cfg", timeout=900)
+    if ctx.thorough():
+        ctx.tlc_mc("BTreeNodes.tla", "BTreeNodes_three.cfg", timeout=3000)
+        ctx.tlc_mc("BTreeNodes.tla", "BTreeNodes_thorough.cfg", timeout=3000)
+        ctx.tlc_mc("BTreeNodes.tla", "BTreeNodes_thorough3.cfg", timeout=3000)
+    # anti-vacuity: the two classic path bugs must break the model (key == limit kept in the left
+    # leaf; right-most child not inheriting its ancestor's limit)
+    ctx.tlc_mc("BTreeNodes.tla", "BTreeNodes_dev_le.cfg", timeout=600, expect_violation="ModifyAssertsOK", count=False)
+    ctx.tlc_mc("BTreeNodes.tla", "BTreeNodes_dev_inherit.cfg", timeout=600, expect_violation="ModifyAssertsOK", count=False)
     # 2. conformance
     drv = ctx.go_build("btree")
     trace = ctx.work + "/btree.ndjson"
@@ -41,7 +73,6 @@ def run(ctx):
     args = [60, 25, 6, 20, 16] if ctx.thorough() else [12, 4, 1, 3, 1]
     rc, out, summ = ctx.driver(drv, [trace] + args, timeout=900)
     if rc != 0:
-        import vlib
         raise vlib.Infra("btree driver rc=%d: %s" % (rc, out[-2000:]))
     ctx.sample_trace_lines(trace, 4)
     for k in ("merges", "changes", "states", "lookups", "iterops", "fracs", "scenarios", "panics", "fracs_out_of_range"):
